@@ -37,7 +37,7 @@ VARIANTS = (
     + [("quaternion_schur_unified", {"variant": v, "precompute_shifts": ps}) for v in ("none", "rayleigh", "implicit", "aed", "ds") for ps in ((True, False) if v in ("aed", "ds") else (True,))]
     + [("quaternion_schur_experimental", {"variant": v}) for v in ("aed_windowed", "francis_ds")]
 )
-CLASSES = ["generic", "hermitian", "hermitian_repeat", "triu", "normal", "rank1", "q8int", "zero_first_col", "zero_subdiag", "identity", "zero", "near_hermitian", "near_triu"]
+CLASSES = ["generic", "hermitian", "hermitian_repeat", "triu", "normal", "rank1", "q8int", "zero_first_col", "zero_subdiag", "identity", "zero", "near_hermitian", "near_triu", "scaled_2^-30", "scaled_2^30"]
 
 
 def vname(fn, kw):
@@ -99,6 +99,8 @@ def make(cls, n, fill):
         P_ = np.ldexp(fill.quat(n, n, bits=3, lo=-16, hi=16), -22)
         for i in range(n):
             A[i, :i] = P_[i, :i]
+    elif cls.startswith("scaled_2^"):
+        A = np.ldexp(A, int(cls.split("^")[1]))
     elif cls == "identity":
         A = O.qeye(n)
     elif cls == "zero":
